@@ -4,7 +4,7 @@ import re
 
 from ..core import AnalysisError, dotted, walk_no_nested
 from ..cfg import CFG, cond_guards
-from ..util import calls_in, local_defs, depends_on, const_val, if_chain, names_in
+from ..util import calls_in, local_defs, depends_on, const_val, if_chain, names_in, last_attr
 from ..consteval import Evaluator, UNKNOWN, reachable_arms, Abstract, AbstractEntry
 from .. import mergefacts as mf
 
@@ -238,7 +238,8 @@ def run(ctx):
     consts = mf.diffop_consts(repo)
     chain = None
     for n in walk_no_nested(ml):
-        if isinstance(n, ast.If) and 'is_transient' in names_in(n.test):
+        if isinstance(n, ast.If) and ('is_transient' in names_in(n.test) or
+                                      any(last_attr(c) == 'is_diff_all_transients' for c in calls_in(n.test))):
             chain = n
             # climb to the head of the elif chain this arm belongs to
             while isinstance(repo.parent(chain), ast.If) and repo.parent(chain).orelse == [chain]:
@@ -250,7 +251,8 @@ def run(ctx):
     default_cells = sorted(x for x in table.get('/cells', ()) if x in ('inline-cells',))
     for lp, rp in (('P', 'R'), ('R', 'P')):
         for ls in ['inline-cells', None]:
-            ev = Evaluator({'p0': Abstract(lp, letter_ops), 'p1': Abstract(rp, letter_ops), 'is_transient': False, 'list_strategy': ls}, consts)
+            ev = Evaluator({'p0': Abstract(lp, letter_ops), 'p1': Abstract(rp, letter_ops), 'is_transient': False, 'list_strategy': ls}, consts,
+                           calls={'is_diff_all_transients': lambda e, c: False})
             reach = reachable_arms(ev, chain)
             picks = []
             for idx, body in reach:
